@@ -5,9 +5,15 @@
         in a fresh scratch worktree of /repo under /tmp: the demonstration must pass without the
         patch; with the patch the pinned tests must pass and the demonstration must fail.
         On success the change is stored as /verif/seeded/<id>/ (patch.diff, demo/, meta.json).
-  bin/seedcheck.py run <id> [Cxx ...] [--tier quick|thorough]
+  bin/seedcheck.py run <id> [Cxx ...] [--tier quick|thorough] [--isolated]
         applies /verif/seeded/<id>/patch.diff to /repo, runs the given checks (default: the
         property's own check), reverts /repo, records the outcome in meta.json.
+        --isolated: /repo itself is left alone (needed while a `vp run` soak is using it): the
+        checks run in a private mount namespace in which a patched scratch copy of /repo is
+        bind-mounted over /repo, so every path the checks use is unchanged.
+  bin/seedcheck.py equiv <id> Cxx [Cxx ...] [--tier quick|thorough]
+        /verif/equiv/<id>/patch.diff is a property-PRESERVING refactoring of /repo: the given
+        checks are run against it (isolated, as above) and must all exit 0 (no false alarm).
 """
 import os, sys, json, subprocess, shutil, time
 
@@ -102,6 +108,8 @@ def run(args):
     d = os.path.join(ROOT, 'seeded', sid)
     meta = json.load(open(os.path.join(d, 'meta.json')))
     checks = [a for a in args[1:] if a.startswith('C')] or [meta.get('property')]
+    if '--isolated' in args:
+        return run_isolated(sid, d, meta, checks, tier)
     rc, o = sh('git -C /repo status --porcelain')
     if o.strip():
         print('/repo not clean; refusing')
@@ -126,11 +134,51 @@ def run(args):
     return 0
 
 
+def equiv(args):
+    sid = args[0]
+    tier = args[args.index('--tier') + 1] if '--tier' in args else 'quick'
+    d = os.path.join(ROOT, 'equiv', sid)
+    meta = json.load(open(os.path.join(d, 'meta.json')))
+    checks = [a for a in args[1:] if a.startswith('C')]
+    run_isolated(sid, d, meta, checks, tier)
+    bad = [c for c in checks if meta['checks'][c]['exit'] != 0]
+    if bad:
+        print('FALSE ALARM on %s: %s' % (sid, bad))
+        return 1
+    return 0
+
+
+def run_isolated(sid, d, meta, checks, tier):
+    scr = '/tmp/scr_%s' % sid
+    shutil.rmtree(scr, ignore_errors=True)
+    rc, o = sh('rsync -a --exclude target /repo/ %s/ && git -C %s checkout -q -- . && git -C %s apply %s' % (scr, scr, scr, os.path.join(d, 'patch.diff')))
+    assert rc == 0, o
+    out = {}
+    try:
+        for c in checks:
+            t0 = time.time()
+            inner = 'mount --bind %s /repo && cd %s && bin/verif check %s --tier %s' % (scr, ROOT, c, tier)
+            rc, o = sh("unshare -m bash -c '%s'" % inner, cwd=ROOT)
+            codes = sorted(set(l.strip().split(':')[0].split(' ')[0] for l in o.splitlines() if l.startswith('  C')))
+            out[c] = {'tier': tier, 'exit': rc, 'codes': codes, 'wall_s': round(time.time() - t0, 1), 'isolated': True}
+            print('%s %s exit=%d %s %.0fs' % (sid, c, rc, codes, time.time() - t0), flush=True)
+            if rc == 2 or (rc != 0 and '/equiv/' in d):
+                print('\n'.join(l[:400] for l in o.splitlines() if l.startswith('  C') or 'VIOLATION' in l or 'HARNESS' in l or 'error' in l)[-3000:])
+    finally:
+        shutil.rmtree(scr, ignore_errors=True)
+        sh('rm -f %s/replays/*.json' % ROOT)
+    meta.setdefault('checks', {}).update(out)
+    json.dump(meta, open(os.path.join(d, 'meta.json'), 'w'), indent=1)
+    return 0
+
+
 if __name__ == '__main__':
     a = sys.argv[1:]
     if len(a) >= 2 and a[0] == 'confirm':
         sys.exit(confirm(a[1:]))
     if len(a) >= 2 and a[0] == 'run':
         sys.exit(run(a[1:]))
+    if len(a) >= 2 and a[0] == 'equiv':
+        sys.exit(equiv(a[1:]))
     print(__doc__)
     sys.exit(2)
